@@ -4,6 +4,7 @@ from __future__ import annotations
 
 import ast
 
+from sa import norm
 from sa.cfg import CFG, case_literals
 from sa.context import Context, const_str, names_in, raises_in
 from sa.model import AnalysisError, FunctionInfo, dotted, parent, short
@@ -19,27 +20,28 @@ SAFE_CASTINGS = {"no", "equiv", "safe"}
 
 # ---------------------------------------------------------------------------
 def match_tables(fn: FunctionInfo, subject_suffix: str):
-    """literal -> arm body for `match <..subject_suffix>` in fn."""
+    """literal -> arm body for the dispatch on `<..subject_suffix>` in fn
+    (match statement or if/elif chain)."""
+    from sa import norm
+    from sa.dispatch import literal_dispatches
     out: dict[object, list[ast.stmt]] = {}
     default = None
     found = False
     for n in fn.body_nodes():
-        if isinstance(n, ast.Match) and (dotted(n.subject) or "").endswith(
-                subject_suffix):
-            found = True
-            for case in n.cases:
-                lits = case_literals(case.pattern)
-                if lits is None:
-                    if isinstance(case.pattern, ast.MatchAs) and \
-                            case.pattern.pattern is None:
-                        default = case.body
-                        continue
-                    raise AnalysisError(f"{fn.loc(case.pattern)}: dispatch "
-                                        "shape not understood")
-                for lit in lits:
-                    out[lit] = case.body
+        if isinstance(n, ast.Match) and norm.canon(fn, n.subject).endswith(
+                subject_suffix) and not any(
+                    d.node is n for d in literal_dispatches([n])):
+            raise AnalysisError(f"{fn.loc(n)}: dispatch shape not understood")
+    for d in literal_dispatches(fn.body_nodes()):
+        if not norm.canon(fn, d.subject).endswith(subject_suffix):
+            continue
+        found = True
+        default = d.default
+        for lits, body in d.arms:
+            for lit in lits:
+                out[lit] = body
     if not found:
-        raise AnalysisError(f"{fn.fq}: no match on {subject_suffix}")
+        raise AnalysisError(f"{fn.fq}: no dispatch on {subject_suffix}")
     return out, default
 
 
@@ -252,10 +254,12 @@ def check_order(ctx: Context, rep, rule: str) -> None:
                    message="data must be little endian when dumped "
                    f"(big endian input: {big})", sample=False)
     # the match subject is the converted array's byte order
-    subj = [n for n in fn.body_nodes() if isinstance(n, ast.Match)]
-    rep.ob(rule, any((dotted(m.subject) or "").endswith("dtype.byteorder")
+    from sa.dispatch import literal_dispatches
+    subj = literal_dispatches(fn.body_nodes())
+    rep.ob(rule, any(norm.canon(fn, m.subject).endswith("dtype.byteorder")
                      for m in subj) and any(
-                         dotted(m.subject) == "sys.byteorder" for m in subj),
+                         norm.canon(fn, m.subject) == "sys.byteorder"
+                         for m in subj),
            loc=fn.loc(), where=fn.qualname,
            construct="match value_np.dtype.byteorder / sys.byteorder",
            message="normalisation dispatches on the array's and the "
